@@ -13,27 +13,51 @@ void *gh_qi0;
  * The loop invariants below name the range-for temporaries of the current text; a rewrite of a loop makes them unusable (the unit
  * becomes undecided), and then these bounded siblings still decide the contract on small points - with a concrete counterexample. */
 #ifdef CV_BOUNDED_FALLBACK
+#define SN_NN(p, i) ((i) >= CNT(p) || H(p, i) != 0)
 #define SN_BOUND(this_) (CNT(this_) <= CV_BOUND_N)
+#define SN_ALLNN(this_) (SN_NN(this_, 0) && SN_NN(this_, 1) && SN_NN(this_, 2) && SN_NN(this_, 3) && SN_NN(this_, 4))   /* every carried handle is a real coroutine (the unbounded units assume it at the tracked position only) */
 #else
 #define SN_BOUND(this_) 1
+#define SN_ALLNN(this_) 1
+#endif
+/* order-free accounting for the bounded siblings (C06: "exactly once" without demanding an order): XCOUNT(p) = occurrences of the
+ * arbitrary handle value gh_X among the (<= CV_BOUND_N <= 5) handles of p; gh_cntX0 pins the entry value */
+#ifdef CV_COUNT_X
+cv_i64 gh_cntX0;
+#define XC1(p, i) (((i) < CNT(p) && H(p, i) == gh_X) ? 1 : 0)
+#define XCOUNT(p) ((cv_i64)(XC1(p, 0) + XC1(p, 1) + XC1(p, 2) + XC1(p, 3) + XC1(p, 4)))
+#define SN_COUNT_PRE(this_) __CPROVER_requires(gh_X != 0 && gh_cntX0 == XCOUNT(this_) && dq_cntX < (1ul << 40) && gh_rescntX < (1ul << 40))
+#define SN_COUNT_POST \
+__CPROVER_ensures(gh_qi0 != 0 ==> (dq_cntX == __CPROVER_old(dq_cntX) + gh_cntX0 && gh_rescntX == __CPROVER_old(gh_rescntX)))   /* coroutine mode: every handle queued as often as it was carried, none run */ \
+__CPROVER_ensures(gh_qi0 == 0 ==> (gh_rescntX == __CPROVER_old(gh_rescntX) + gh_cntX0 && dq_cntX == __CPROVER_old(dq_cntX)))   /* normal mode: every handle resumed (directly) as often as it was carried, none queued */
+#else
+#define SN_COUNT_PRE(this_)
+#define SN_COUNT_POST
+#endif
+#ifdef CV_NO_ORDER
+#define SN_ORDER_POST
+#else
+#define SN_ORDER_POST \
+__CPROVER_ensures((gh_qi0 != 0 && gh_DK >= gh_t0 && gh_DK - gh_t0 < (gh_cf >> 1)) ==> dq_trk == gh_Hq) \
+__CPROVER_ensures((gh_qi0 == 0 && gh_RK >= gh_r0 && gh_RK - gh_r0 < (gh_cf >> 1)) ==> gh_res_trk == gh_Hr)
 #endif
 #define SN_CONTRACT(this_) \
 __CPROVER_requires(Q_PRE && (QI == 0 ==> dq_head == dq_tail)) \
-__CPROVER_requires(__CPROVER_is_fresh(this_, sizeof(*this_)) && SN_BOUND(this_) && WF_FRESH(this_)) \
+__CPROVER_requires(__CPROVER_is_fresh(this_, sizeof(*this_)) && SN_BOUND(this_) && WF_FRESH(this_) && SN_ALLNN(this_)) \
 __CPROVER_requires(gh_cf == this_->_count_flag && gh_t0 == dq_tail && gh_h0 == dq_head && gh_r0 == gh_n_resume && gh_qi0 == (void *)QI) \
 __CPROVER_requires((gh_DK >= dq_tail && gh_DK - dq_tail < CNT(this_)) ==> (gh_Hq == H(this_, gh_DK - dq_tail) && gh_Hq != 0)) \
 __CPROVER_requires((gh_RK >= gh_n_resume && gh_RK - gh_n_resume < CNT(this_)) ==> (gh_Hr == H(this_, gh_RK - gh_n_resume) && gh_Hr != 0)) \
+SN_COUNT_PRE(this_) \
 __CPROVER_assigns(MODEL_ASSIGNS, QI, *TLS_GUARD, this_->_count_flag, gh_frees) \
 __CPROVER_frees(HEAP(this_): EXTP(this_)->_handles) \
 __CPROVER_ensures(cv_exc_pending == 0 && (void *)QI == gh_qi0) \
 __CPROVER_ensures(this_->_count_flag == 0 && gh_frees == __CPROVER_old(gh_frees) + (gh_cf & 1))            /* emptied; block released once */ \
 /* coroutine mode */ \
 __CPROVER_ensures(gh_qi0 != 0 ==> (dq_tail == gh_t0 + (gh_cf >> 1) && dq_head == gh_h0 && gh_n_resume == gh_r0)) \
-__CPROVER_ensures((gh_qi0 != 0 && gh_DK >= gh_t0 && gh_DK - gh_t0 < (gh_cf >> 1)) ==> dq_trk == gh_Hq) \
 __CPROVER_ensures((gh_qi0 != 0 && gh_DK < gh_t0) ==> dq_trk == __CPROVER_old(dq_trk)) \
 /* normal mode */ \
 __CPROVER_ensures(gh_qi0 == 0 ==> (dq_head == dq_tail && gh_n_resume >= gh_r0 + (gh_cf >> 1))) \
-__CPROVER_ensures((gh_qi0 == 0 && gh_RK >= gh_r0 && gh_RK - gh_r0 < (gh_cf >> 1)) ==> gh_res_trk == gh_Hr)
+SN_ORDER_POST SN_COUNT_POST
 
 #ifndef SN_CF
 #define SN_CF gh_cf
@@ -110,23 +134,38 @@ cv_i8 *gh_Hlast; cv_i8 *gh_I[3];
 #endif
 cv_i8 *sp_await_suspend(SP *this_, cv_i8 *h)
 __CPROVER_requires(Q_PRE && QI != 0 && h != 0 && h != (cv_i8 *)NOOPH)   /* the awaiting coroutine is a real one, not the noop coroutine */
-__CPROVER_requires(__CPROVER_is_fresh(this_, sizeof(*this_)) && SN_BOUND(this_) && WF_FRESH(this_))
+__CPROVER_requires(__CPROVER_is_fresh(this_, sizeof(*this_)) && SN_BOUND(this_) && WF_FRESH(this_) && SN_ALLNN(this_))
 __CPROVER_requires(gh_cf == this_->_count_flag && gh_t0 == dq_tail && gh_h0 == dq_head && gh_r0 == gh_n_resume)
 __CPROVER_requires(CNT(this_) > 0 ==> gh_Hlast == H(this_, CNT(this_) - 1))
 __CPROVER_requires((gh_DK >= dq_tail && gh_DK - dq_tail < AS_M) ==> (gh_Hq == H(this_, gh_DK - dq_tail) && gh_Hq != 0))
 __CPROVER_requires((cv_i64)gh_G < AS_M ==> gh_oldH == H(this_, gh_G))
+#ifdef CV_COUNT_X
+__CPROVER_requires(gh_X != 0 && gh_X != (cv_i8 *)NOOPH && gh_cntX0 == XCOUNT(this_) && dq_cntX < (1ul << 40) && gh_rescntX < (1ul << 40))
+#endif
 __CPROVER_requires(!HEAP(this_) ==> (gh_I[0] == INL(this_)[0] && gh_I[1] == INL(this_)[1] && gh_I[2] == INL(this_)[2]))
 __CPROVER_assigns(MODEL_ASSIGNS, *TLS_GUARD, this_->_count_flag, gh_frees)
 __CPROVER_frees(HEAP(this_): EXTP(this_)->_handles)
 __CPROVER_ensures(cv_exc_pending == 0 && QI == __CPROVER_old(QI))
 __CPROVER_ensures(this_->_count_flag == 0 && gh_frees == __CPROVER_old(gh_frees) + (gh_cf & 1))
+#ifndef CV_NO_ORDER
 __CPROVER_ensures((gh_cf >> 1) > 0 ==> __CPROVER_return_value == gh_Hlast)                    /* transfer target = last handle */
+#endif
 __CPROVER_ensures((gh_cf >> 1) == 0 ==> __CPROVER_return_value == NOOPH)
 __CPROVER_ensures(dq_head == gh_h0 && gh_n_resume == gh_r0)                                   /* nothing runs inside */
+#ifndef CV_NO_ORDER
 __CPROVER_ensures((gh_DK >= gh_t0 && (cv_i64)(gh_DK - gh_t0) < AS_M) ==> dq_trk == gh_Hq)     /* the others queued, in order */
+#endif
 __CPROVER_ensures(gh_DK < gh_t0 ==> dq_trk == __CPROVER_old(dq_trk))
 __CPROVER_ensures(dq_tail == gh_t0 + AS_M || dq_tail == gh_t0 + AS_M + 1)
+#ifndef CV_NO_ORDER
 __CPROVER_ensures((dq_tail == gh_t0 + AS_M + 1 && gh_DK == gh_t0 + AS_M) ==> dq_trk == h)     /* awaiting coroutine appended last */
+#endif
+#ifdef CV_COUNT_X
+/* order-free (C06): transfer target + queue entries account for every carried handle exactly as often as it was carried, plus the
+ * awaiting coroutine exactly once unless it was carried itself; nothing is resumed inside */
+__CPROVER_ensures(((__CPROVER_return_value == gh_X) ? 1 : 0) + (dq_cntX - __CPROVER_old(dq_cntX)) == ((gh_X == h && gh_cntX0 == 0) ? 1 : gh_cntX0))
+__CPROVER_ensures(gh_rescntX == __CPROVER_old(gh_rescntX))
+#endif
 __CPROVER_ensures(((cv_i64)gh_G < AS_M && gh_oldH == h) ==> dq_tail == gh_t0 + AS_M)          /* ... but never twice: not when it is among the queued handles */
 __CPROVER_ensures(((gh_cf >> 1) > 0 && gh_Hlast == h) ==> dq_tail == gh_t0 + AS_M)            /* ... and not when it is itself the transfer target (it continues at once) */
 __CPROVER_ensures((dq_tail == gh_t0 + AS_M && !(gh_cf & 1)) ==> (AS_SOME_EQ(AS_M, h) || ((gh_cf >> 1) > 0 && gh_Hlast == h)))   /* ... and never lost (inline representation) */
